@@ -83,7 +83,11 @@ def wordGas (p : GasParams) (memLen last memorySize : Nat) (lenWord : Option Wor
       else
         let (g, o2) := safeAdd gas wg
         if o2 then none
-        else if p.p026 then some ((g * p.magnification) % 2 ^ 64, last') else some (g, last')
+        else if p.p026 then
+          -- `SafeMul(gas, GasMagnification)` (overflow-checked since fix 35e4fc3)
+          let (gm, o3) := safeMul g p.magnification
+          if o3 then none else some (gm, last')
+        else some (g, last')
   | _, _ => none
 
 inductive DynGasResult where
